@@ -25,9 +25,33 @@ struct M {
     oov: bool,
 }
 
-fn tokenize(dic: &JapaneseDictionary, text: &str, mode: Mode) -> Result<Vec<M>, String> {
+extern "C" {
+    fn dup(fd: i32) -> i32;
+    fn dup2(a: i32, b: i32) -> i32;
+    fn close(fd: i32) -> i32;
+}
+
+/// runs `f` with file descriptor 1 redirected into a scratch file and returns what was printed (the debug tokenizer
+/// prints with `println!`); the harness itself never writes to stdout while cases run
+fn capture_stdout<R>(scratch: &std::path::Path, f: impl FnOnce() -> R) -> (R, Vec<u8>) {
+    use std::io::Write;
+    use std::os::unix::io::AsRawFd;
+    let _ = std::io::stdout().flush();
+    let file = std::fs::File::create(scratch).unwrap();
+    let saved = unsafe { dup(1) };
+    unsafe { dup2(file.as_raw_fd(), 1) };
+    let r = f();
+    let _ = std::io::stdout().flush();
+    unsafe { dup2(saved, 1); close(saved); }
+    drop(file);
+    let out = std::fs::read(scratch).unwrap_or_default();
+    (r, out)
+}
+
+fn tokenize_with(dic: &JapaneseDictionary, text: &str, mode: Mode, subset: Option<sudachi::dic::subset::InfoSubset>, debug: bool) -> Result<Vec<M>, String> {
     let r = catch(|| {
-        let mut tok = StatefulTokenizer::create(dic, false, mode);
+        let mut tok = StatefulTokenizer::create(dic, debug, mode);
+        if let Some(s) = subset { tok.set_subset(s); }
         tok.reset().push_str(text);
         tok.do_tokenize().map_err(|e| err_class(&e))?;
         let mut ml = MorphemeList::empty(dic);
@@ -50,6 +74,10 @@ fn tokenize(dic: &JapaneseDictionary, text: &str, mode: Mode) -> Result<Vec<M>, 
         Ok(x) => x,
         Err(p) => Err(format!("PANIC {}", p)),
     }
+}
+
+fn tokenize(dic: &JapaneseDictionary, text: &str, mode: Mode) -> Result<Vec<M>, String> {
+    tokenize_with(dic, text, mode, None, false)
 }
 
 fn sentences(dic: &JapaneseDictionary, text: &str) -> Vec<String> {
@@ -99,17 +127,27 @@ fn strip_cur(line: &str) -> &str {
     &line[..len]
 }
 
-fn expected(dic: &JapaneseDictionary, file: &str, wakati: bool, all: bool, mode: Mode, split: &str, strip: fn(&str) -> &str) -> Result<String, String> {
+/// the documented behaviour computed from the library: (output, failed). A text the library rejects ends the run:
+/// everything analysed before it is reported, nothing after it.
+fn expected(dic: &JapaneseDictionary, file: &str, wakati: bool, all: bool, mode: Mode, split: &str, strip: fn(&str) -> &str) -> (String, bool) {
     let mut out = String::new();
     for line in file.split_inclusive('\n') {
         let t = strip(line);
         match split {
             "only" => for s in sentences(dic, t) { out.push_str(&s); },
-            "none" => { let ms = tokenize(dic, t, mode)?; out.push_str(&if wakati { fmt_wakati(&ms) } else { fmt_simple(all, &ms) }); }
-            _ => for s in sentences(dic, t) { let ms = tokenize(dic, &s, mode)?; out.push_str(&if wakati { fmt_wakati(&ms) } else { fmt_simple(all, &ms) }); },
+            "none" => match tokenize(dic, t, mode) {
+                Ok(ms) => out.push_str(&if wakati { fmt_wakati(&ms) } else { fmt_simple(all, &ms) }),
+                Err(_) => return (out, true),
+            },
+            _ => for s in sentences(dic, t) {
+                match tokenize(dic, &s, mode) {
+                    Ok(ms) => out.push_str(&if wakati { fmt_wakati(&ms) } else { fmt_simple(all, &ms) }),
+                    Err(_) => return (out, true),
+                }
+            },
         }
     }
-    Ok(out)
+    (out, false)
 }
 
 fn enc_morph(m: &M) -> String {
@@ -173,8 +211,95 @@ fn py_session(run: &mut Run, idx: usize, rng: &mut Rng, w: &World) {
     // a list produced from a stale parent may or may not have been re-pointed to the parent's buffer
     let mut alt_group: Vec<Option<usize>> = vec![];
     let mut kept = 0usize;
+    // modelled glue calls: (call number, function, payload for the model); the implementation's answer is read off the
+    // Python result of that call afterwards
+    let mut glue: Vec<(usize, &'static str, String)> = vec![];
+    let field_names = ["surface", "pos", "pos_id", "normalized_form", "dictionary_form", "reading_form", "word_structure", "split_a", "split_b", "synonym_group_id"];
     for _ in 0..ncalls {
-        let kind = rng.below(10);
+        let kind = rng.below(14);
+        if kind >= 10 {
+            let fresh: Vec<usize> = (0..lists.len()).filter(|&j| !stale[j]).collect();
+            if kind == 12 || fresh.is_empty() {
+                // ---- Dictionary.create(mode, fields) + one text ----
+                let bad_mode = rng.chance(1, 8);
+                let m = mode_of(rng.below(3));
+                let fields: Option<Vec<String>> = if rng.chance(1, 4) { None } else {
+                    let mut f: Vec<String> = field_names.iter().filter(|_| rng.chance(1, 3)).map(|x| x.to_string()).collect();
+                    if rng.chance(1, 8) { f.push("reading".to_string()); }
+                    Some(f)
+                };
+                // the text contains a dictionary word whose reading / normalised form differs from its surface (otherwise the
+                // accessors fall back to the surface and a wrong field mapping is invisible)
+                let marked: Vec<&Row> = w.lex.rows.iter().filter(|r| r.left >= 0 && (r.reading != r.surface || r.norm != r.surface)).collect();
+                let mut text = gen_text(rng, w, 6);
+                if !marked.is_empty() { for _ in 0..2 { text.push_str(&rng.pick(&marked).surface); } }
+                calls.push(serde_json::json!({"op": "create", "mode": if bad_mode { "X" } else { mode_str(m) }, "fields": fields, "text": text}));
+                expect.push(None);
+                let modebits = match m { Mode::A => 64, Mode::B => 128, Mode::C => 0 };
+                glue.push((calls.len() - 1, "create", format!("f=create modeok={} modebits={} fields={}", !bad_mode as u8, modebits, fields.as_ref().map_or("-".to_string(), |f| f.join("+")))));
+                // mirror: the list Python appends on success (harness-side mapping of the names, real set_subset)
+                let mapped: Option<u32> = match &fields {
+                    None => Some(InfoSubset::all().bits()),
+                    Some(f) => f.iter().map(|n| match n.as_str() {
+                        "surface" => Some(1u32), "pos" | "pos_id" => Some(4), "normalized_form" => Some(8), "dictionary_form" => Some(16), "reading_form" => Some(32),
+                        "word_structure" => Some(256), "split_a" => Some(64), "split_b" => Some(128), "synonym_group_id" => Some(512), _ => None,
+                    }).fold(Some(0u32), |a, b| match (a, b) { (Some(a), Some(b)) => Some(a | b), _ => None }),
+                };
+                if let (false, Some(bits)) = (bad_mode, mapped) {
+                    let mut tok = StatefulTokenizer::create(dic, false, m);
+                    tok.set_subset(InfoSubset::from_bits_truncate(bits));
+                    tok.reset().push_str(&text);
+                    if tok.do_tokenize().is_ok() {
+                        let mut ml = MorphemeList::empty(dic);
+                        ml.collect_results(&mut tok).unwrap();
+                        let eff = ml.subset().bits();
+                        let d = dump_list(&ml, &text);
+                        glue.last_mut().unwrap().2.push_str(&format!(" #eff={} #dump={}", eff, hex(d.to_string().as_bytes())));
+                        lists.push((ml, text.clone())); group.push(next_group); next_group += 1; stale.push(false); alt_group.push(None);
+                    } else {
+                        glue.last_mut().unwrap().2.push_str(" #liberr=1");
+                    }
+                }
+                run.bump("python-create-with-fields");
+                continue;
+            }
+            let l = *rng.pick(&fresh);
+            let n = lists[l].0.len();
+            if kind == 11 && n > 0 {
+                // ---- Morpheme.split with out = own list / a mode that is none / add_single left out ----
+                let index = rng.below(n);
+                let mode = mode_of(rng.below(3));
+                let variant = rng.below(3);
+                let mut scratch = lists[l].0.empty_clone();
+                let splitted = lists[l].0.split_into(mode, index, &mut scratch).unwrap_or(false);
+                let nsplits = if splitted { scratch.len() } else { 0 };
+                let (out_s, mode_ok) = match variant { 0 => ("own", true), 1 => ("none", false), _ => ("none", true) };
+                calls.push(serde_json::json!({"op": "splitx", "list": l, "index": index, "mode": if mode_ok { mode_str(mode) } else { "X" },
+                    "out": if variant == 0 { Some("own") } else { None }, "add_single": serde_json::Value::Null}));
+                expect.push(None);
+                glue.push((calls.len() - 1, "split", format!("f=split modeok={} out={} add=- indexok=1 nsplits={} stale=0", mode_ok as u8, out_s, nsplits)));
+                if variant == 2 {
+                    // succeeds: Python appends the result; add_single defaults to True in the binding
+                    if !splitted { lists[l].0.copy_slice(index, index + 1, &mut scratch); }
+                    let text = lists[l].1.clone();
+                    lists.push((scratch, text)); group.push(group[l]); stale.push(false); alt_group.push(None);
+                }
+                run.bump("python-split-argument-shapes");
+                continue;
+            }
+            // ---- MorphemeList.__getitem__ / iteration ----
+            let arg: serde_json::Value = match rng.below(8) {
+                0 => serde_json::json!("slice"), 1 => serde_json::json!("str"), 2 => serde_json::json!("huge"),
+                3 => serde_json::json!(n as i64), 4 => serde_json::json!(-(n as i64) - 1),
+                5 => serde_json::json!(-(rng.below(n + 1) as i64)),
+                _ => serde_json::json!(rng.below(n + 2) as i64 - 1),
+            };
+            calls.push(serde_json::json!({"op": "index", "list": l, "arg": arg}));
+            expect.push(None);
+            glue.push((calls.len() - 1, "getitem", format!("f=getitem len={} arg={}", n, arg.as_str().map_or(arg.to_string(), |s| s.to_string()))));
+            run.bump("python-getitem");
+            continue;
+        }
         if kind < 5 || lists.is_empty() {
             // one call in ten is rejected by the library (input longer than 49149 bytes): the binding must turn that
             // into an exception and leave the tokenizer as it was (mode override restored)
@@ -204,6 +329,16 @@ fn py_session(run: &mut Run, idx: usize, rng: &mut Rng, w: &World) {
                     stale[i] = false;
                 }
                 None => { lists.push((ml, text.clone())); group.push(next_group); next_group += 1; stale.push(false); alt_group.push(None); }
+            }
+            {
+                let ml = &lists[out.unwrap_or(lists.len() - 1)].0;
+                if text.len() < 400 {
+                    glue.push((calls.len() - 1, "offsets", format!("f=offsets text={} spans={}", hex(text.as_bytes()), ml.iter().map(|m| format!("{}:{}", m.begin(), m.end())).collect::<Vec<_>>().join(","))));
+                }
+                // the library's own answer (it may panic: i32 overflow, see the model) rides along for the oracle
+                let lib_cost = catch(|| ml.get_internal_cost()).map_or("exc:PanicException".to_string(), |c| format!("ok:{}", c));
+                if lib_cost.starts_with("exc") { run.bump("library-get_internal_cost-overflows"); }
+                glue.push((calls.len() - 1, "cost", format!("f=cost totals={} #lib={}", ml.iter().map(|m| m.total_cost().to_string()).collect::<Vec<_>>().join(","), lib_cost)));
             }
             expect.push(Some(serde_json::json!({"ok": true, "mode": mode_str(create_mode), "ms": d, "n": n})));
         } else if kind < 8 {
@@ -292,6 +427,63 @@ fn py_session(run: &mut Run, idx: usize, rng: &mut Rng, w: &World) {
             outp.status.code(), got.len().saturating_sub(if done { 1 } else { 0 }), calls.len(), String::from_utf8_lossy(&outp.stderr).chars().rev().take(300).collect::<String>().chars().rev().collect::<String>()));
         return;
     }
+    for (k, func, payload) in &glue {
+        let g = &got[*k];
+        let (model_payload, notes) = match payload.find(" #") { Some(p) => (&payload[..p], &payload[p..]), None => (&payload[..], "") };
+        let exc = g.get("exc").and_then(|e| e.as_str()).map(|e| e.to_string()).or_else(|| g.get("err").and_then(|e| e.as_str()).map(|e| e.to_string()));
+        let ans = match *func {
+            "getitem" => {
+                let head = match &exc {
+                    Some(e) => format!("exc:{}", e),
+                    None => {
+                        let keys = g["keys"].as_array().cloned().unwrap_or_default();
+                        match keys.iter().position(|x| x == &g["key"]) { Some(p) => format!("ok:{}", p), None => "ok:?".to_string() }
+                    }
+                };
+                format!("{} iter={}", head, g["iter"])
+            }
+            "split" => match &exc {
+                Some(e) => format!("exc:{} out={}", e, if g["before"] == g["after"] { "untouched".to_string() } else { g["after"].to_string() }),
+                None => format!("ok:{} out={}", g["n"], g["n"]),
+            },
+            "create" => match &exc {
+                Some(e) => format!("exc:{}", e),
+                None => {
+                    // which effective subset reproduces what Python reports? (the harness's own mapping + the real set_subset)
+                    let eff = notes.split(" #eff=").nth(1).and_then(|x| x.split(' ').next()).unwrap_or("?");
+                    let dump = notes.split(" #dump=").nth(1).and_then(|x| x.split(' ').next()).unwrap_or("");
+                    if hex(g["ms"].to_string().as_bytes()) == dump { format!("ok:{}", eff) } else { "ok:X".to_string() }
+                }
+            },
+            "offsets" => g["ms"].as_array().map_or("?".to_string(), |ms| ms.iter().map(|m| format!("ok:{}:{}:{}", m["b"], m["e"], m["len"])).collect::<Vec<_>>().join(",")),
+            "cost" => match g["cost"].as_str() { Some(e) => e.to_string(), None => format!("ok:{}", g["cost"]) },
+            _ => "?".to_string(),
+        };
+        run.bump(&format!("pyglue:{}", func));
+        run.case(idx, "pyglue", model_payload, &ans, true);
+        // oracle: an exception class that is not one of the documented/ordinary ones, or a wrong element
+        if *func == "cost" {
+            let lib = notes.split(" #lib=").nth(1).unwrap_or("?");
+            if lib != ans { run.fail(idx, "c19:py:cost", &format!("call {} {}: get_internal_cost() = {} but the library gives {}", k, calls[*k], ans, lib)); }
+        }
+        if let Some(e) = &exc {
+            if !["IndexError", "TypeError", "OverflowError", "SudachiError", "Exception"].contains(&e.as_str()) {
+                run.fail(idx, &format!("c19:py:exception:{}", func), &format!("call {} {} raised {}", k, calls[*k], e));
+            }
+        }
+        if *func == "create" && ans == "ok:X" {
+            run.fail(idx, "c19:py:fields", &format!("call {} {}: morphemes differ from the library's with the requested fields: {}", k, calls[*k], g["ms"].to_string().chars().take(300).collect::<String>()));
+        }
+        if *func == "getitem" {
+            // Python sequence semantics for ints; anything else must raise
+            let n = lists_len_at(model_payload);
+            let a = &calls[*k]["arg"];
+            let want = match a.as_i64() { Some(i) => { let j = if i < 0 { i + n } else { i }; if j < 0 || j >= n { "exc:IndexError".to_string() } else { format!("ok:{}", j) } } None => "exc".to_string() };
+            if !ans.starts_with(&want) || !ans.ends_with(&format!("iter={}", n)) {
+                run.fail(idx, "c19:py:getitem", &format!("call {} {}: {} (expected {} and {} iterated items)", k, calls[*k], ans, want, n));
+            }
+        }
+    }
     for (k, exp) in expect.iter().enumerate() {
         let g = &got[k];
         let Some(exp) = exp else { continue };
@@ -321,6 +513,10 @@ fn py_session(run: &mut Run, idx: usize, rng: &mut Rng, w: &World) {
         }
     }
     run.bump("python-session-ok");
+}
+
+fn lists_len_at(payload: &str) -> i64 {
+    payload.split("len=").nth(1).and_then(|x| x.split(' ').next()).and_then(|x| x.parse().ok()).unwrap_or(-1)
 }
 
 pub fn cli_binary() -> String {
@@ -393,8 +589,17 @@ sequences) + call-sequence runs of the built extension (see extra.python).".into
         let nlines = rng.range(1, 5);
         let mut file = String::new();
         let mut blank = false;
+        let overlong_at = if rng.chance(1, 12) { Some(rng.below(nlines)) } else { None };
+        let debug = rng.chance(1, 5);
         for li in 0..nlines {
-            let body: String = if rng.chance(1, 4) { String::new() } else { gen_text(&mut rng, w, 10).chars().filter(|c| *c != '\n' && *c != '\r').collect() };
+            let body: String = if overlong_at == Some(li) {
+                // a line the tokenizer rejects (more than 49149 bytes); with a terminator inside, the default mode may
+                // still get through it sentence by sentence
+                let mut b = "あ".repeat(16384 + rng.below(3));
+                // (not with -d: the dumps of a 16 000-character sentence are huge and assumption A-BUF would not hold)
+                if !debug && rng.chance(1, 6) { let k = 400 + rng.below(15000); b = b.chars().enumerate().map(|(i, c)| if i == k { '。' } else { c }).collect(); }
+                b
+            } else if rng.chance(1, 4) { String::new() } else { gen_text(&mut rng, w, 10).chars().filter(|c| *c != '\n' && *c != '\r').collect() };
             file.push_str(&body);
             let last = li + 1 == nlines;
             let term = if last && rng.chance(1, 3) { "" } else if rng.chance(1, 4) { "\r\n" } else { "\n" };
@@ -405,69 +610,147 @@ sequences) + call-sequence runs of the built extension (see extra.python).".into
         let all = rng.chance(1, 2);
         let mode = mode_of(rng.below(3));
         let split = *rng.pick(&["default", "default", "only", "none"]);
+        let to_file = rng.chance(1, 4);
+        let from_stdin = rng.chance(1, 4);
+        let in_ok = from_stdin || !rng.chance(1, 40);
+        let out_ok = !to_file || !rng.chance(1, 20);
         let fpath = w.wd.path.join("input.txt");
+        let opath = if out_ok { w.wd.path.join("output.txt") } else { w.wd.path.join("no-such-dir").join("output.txt") };
+        let _ = std::fs::remove_file(&opath);
         std::fs::write(&fpath, &file).unwrap();
         let mut cmd = Command::new(&bin);
         cmd.arg("-r").arg(w.wd.path.join("cfg.json")).arg("-p").arg(&w.wd.path);
         cmd.arg("-m").arg(match mode { Mode::A => "A", Mode::B => "B", Mode::C => "C" });
         if wakati { cmd.arg("-w"); }
         if all { cmd.arg("-a"); }
+        if debug { cmd.arg("-d"); }
+        if to_file { cmd.arg("-o").arg(&opath); }
         cmd.arg(format!("--split-sentences={}", split));
-        cmd.arg(&fpath);
+        if from_stdin {
+            cmd.stdin(std::fs::File::open(&fpath).unwrap());
+        } else if in_ok {
+            cmd.arg(&fpath);
+        } else {
+            cmd.arg(w.wd.path.join("no-such-input.txt"));
+        }
+        cmd.env("RUST_BACKTRACE", "0");
         let outp = match cmd.output() {
             Ok(o) => o,
             Err(e) => { run.bump(&format!("spawn-error:{}", e)); continue; }
         };
+        let code = outp.status.code();
         let status_ok = outp.status.success();
+        let out_file: Option<Vec<u8>> = if to_file { std::fs::read(&opath).ok() } else { None };
         run.bump(&format!("split:{}", split));
         run.bump(if wakati { "fmt:wakati" } else if all { "fmt:all" } else { "fmt:basic" });
+        if debug { run.bump("flag:debug"); }
+        if to_file { run.bump("flag:output-file"); }
+        if from_stdin { run.bump("input:stdin"); }
+        if !in_ok { run.bump("input:missing"); }
+        if !out_ok { run.bump("output:cannot-create"); }
+        if overlong_at.is_some() { run.bump("file-has-overlong-line"); }
         if blank { run.bump("file-has-blank-line"); }
         if file.contains("\r\n") { run.bump("file-has-crlf"); }
         if !file.ends_with('\n') { run.bump("file-no-final-newline"); }
-        // table for the model: every text the binary may analyse under either stripping rule
+        // table for the model: every text the binary may analyse under either stripping rule, analysed with the subset
+        // the tokenizer starts with (all fields) AND with the subset the writer declares (`SudachiOutput::subset()`, which
+        // nothing installs): the model has to pick the right one
+        use sudachi::dic::subset::InfoSubset;
+        let out_subset = if wakati { InfoSubset::empty() } else if all {
+            InfoSubset::POS_ID | InfoSubset::NORMALIZED_FORM | InfoSubset::DIC_FORM_WORD_ID | InfoSubset::READING_FORM | InfoSubset::SYNONYM_GROUP_ID
+        } else { InfoSubset::POS_ID | InfoSubset::NORMALIZED_FORM };
         let mut texts: Vec<String> = vec![];
         for line in file.split_inclusive('\n') {
             for t in [strip_spec(line), strip_cur(line), line] { if !texts.contains(&t.to_string()) { texts.push(t.to_string()); } }
         }
         let mut entries: Vec<String> = vec![];
         let mut tok_texts: BTreeMap<String, ()> = BTreeMap::new();
-        let mut lib_failed = false;
         for t in &texts {
             let ss = sentences(&w.dic, t);
             entries.push(format!("S{}={}", hex(t.as_bytes()), ss.iter().map(|s| hex(s.as_bytes())).collect::<Vec<_>>().join(",")));
             tok_texts.insert(t.clone(), ());
             for s in ss { tok_texts.insert(s, ()); }
         }
+        let scratch = w.wd.path.join("dump.txt");
+        let mut lib_errors = 0;
+        let mut subset_matters = false;
         for t in tok_texts.keys() {
-            match tokenize(&w.dic, t, mode) {
-                Ok(ms) => entries.push(format!("T{}={}", hex(t.as_bytes()), ms.iter().map(enc_morph).collect::<Vec<_>>().join(","))),
-                Err(_) => lib_failed = true,
+            let (full, dump) = if debug { capture_stdout(&scratch, || tokenize_with(&w.dic, t, mode, None, true)) } else { (tokenize(&w.dic, t, mode), vec![]) };
+            match &full {
+                Ok(ms) => entries.push(format!("T{}:{}={}={}", InfoSubset::all().bits(), hex(t.as_bytes()), hex(&dump), ms.iter().map(enc_morph).collect::<Vec<_>>().join(","))),
+                Err(_) => { lib_errors += 1; entries.push(format!("E{}:{}={}", InfoSubset::all().bits(), hex(t.as_bytes()), hex(&dump))); }
             }
-        }
-        if lib_failed { run.bump("library-error-skipped"); continue; }
-        let payload = format!(
-            "w={} a={} split={} strip={} file={} tab={}",
-            if wakati { 1 } else { 0 }, if all { 1 } else { 0 }, split, strip_variant, hex(file.as_bytes()), entries.join(";")
-        );
-        let ans = if status_ok { format!("ok out={}", hex(&outp.stdout)) } else { format!("exit:{:?}", outp.status.code()) };
-        run.bump(if status_ok { "outcome:ok" } else { "outcome:nonzero-exit" });
-        run.case(idx, "cli", &payload, &ans, file.split_inclusive('\n').count() >= 2 && !outp.stdout.is_empty());
-        // ---- oracle: the documented behaviour computed from the library directly ----
-        if !status_ok {
-            run.fail(idx, "c19:cli:exit", &format!("sudachi exited with {:?}: {}", outp.status.code(), String::from_utf8_lossy(&outp.stderr).chars().take(200).collect::<String>()));
-            continue;
-        }
-        let want = expected(&w.dic, &file, wakati, all, mode, split, strip_spec);
-        match want {
-            Err(e) => { run.bump(&format!("oracle-skip:{}", e.chars().take(30).collect::<String>())); }
-            Ok(want) => {
-                if want.as_bytes() != &outp.stdout[..] {
-                    let as_is = expected(&w.dic, &file, wakati, all, mode, split, strip_cur).unwrap_or_default();
-                    let key = if blank && as_is.as_bytes() == &outp.stdout[..] { "c19:cli:d14-blank-line" } else { "c19:cli:output" };
-                    run.fail(idx, key, &format!("stdout differs from the library's result for file {:?} (flags w={} a={} mode={:?} split={}): got {:?}, expected {:?}",
-                        file, wakati, all, mode, split, String::from_utf8_lossy(&outp.stdout).chars().take(200).collect::<String>(), want.chars().take(200).collect::<String>()));
+            if t.len() < 2000 {
+                // the entry a CLI that installed the writer's subset would read (dump not recorded: `00` marks it)
+                match tokenize_with(&w.dic, t, mode, Some(out_subset), false) {
+                    Ok(ms) => {
+                        if let Ok(f) = &full { if f.iter().map(enc_morph).collect::<Vec<_>>() != ms.iter().map(enc_morph).collect::<Vec<_>>() { subset_matters = true; } }
+                        entries.push(format!("T{}:{}=00={}", out_subset.bits(), hex(t.as_bytes()), ms.iter().map(enc_morph).collect::<Vec<_>>().join(",")))
+                    }
+                    Err(_) => entries.push(format!("E{}:{}=00", out_subset.bits(), hex(t.as_bytes()))),
                 }
             }
         }
+        if lib_errors > 0 { run.bump("library-rejects-a-text"); }
+        if subset_matters { run.bump("writer-subset-would-change-result"); }
+        let payload = format!(
+            "w={} a={} d={} o={} src={} in={} outp={} split={} strip={} file={} tab={}",
+            wakati as u8, all as u8, debug as u8, to_file as u8, if from_stdin { "stdin" } else { "file" }, in_ok as u8, out_ok as u8,
+            split, strip_variant, hex(file.as_bytes()), entries.join(";")
+        );
+        let ans = match code {
+            Some(c) => format!("exit={} out={} file={}", c, hex(&outp.stdout), out_file.as_ref().map_or("-".to_string(), |b| hex(b))),
+            None => "killed-by-signal".to_string(),
+        };
+        run.bump(&format!("outcome:exit-{}", code.map_or("signal".to_string(), |c| c.to_string())));
+        run.case(idx, "cli", &payload, &ans, file.split_inclusive('\n').count() >= 2 && (!outp.stdout.is_empty() || out_file.as_ref().map_or(false, |f| !f.is_empty())));
+        // ---- oracle: the documented behaviour computed from the library directly ----
+        // results = what the writer received (stdout without -o, the file with -o); with -d and without -o stdout also
+        // carries the dumps, which only the model accounts for: the oracle then checks the results are a subsequence-free
+        // remainder, i.e. stdout minus the dump lines of the library
+        if !in_ok || !out_ok {
+            if status_ok { run.fail(idx, "c19:cli:exit", "sudachi reported success although a file could not be opened"); }
+            if !outp.stdout.is_empty() { run.fail(idx, "c19:cli:output", "output although a file could not be opened"); }
+            continue;
+        }
+        let (want, failed) = expected(&w.dic, &file, wakati, all, mode, split, strip_spec);
+        if failed == status_ok {
+            run.fail(idx, "c19:cli:exit", &format!("sudachi exited with {:?} but the library {} (stderr {})", code, if failed { "rejects a text of the input" } else { "analyses every text" },
+                String::from_utf8_lossy(&outp.stderr).chars().take(200).collect::<String>()));
+            continue;
+        }
+        let results: Vec<u8> = if to_file { out_file.clone().unwrap_or_default() } else if debug {
+            // drop the dump lines: they are exactly the lines the debug tokenizer printed for the analysed texts, in order
+            let mut dumps: Vec<u8> = vec![];
+            'outer: for line in file.split_inclusive('\n') {
+                let t = strip_spec(line);
+                let units: Vec<String> = match split { "only" => vec![], "none" => vec![t.to_string()], _ => sentences(&w.dic, t) };
+                for u in units {
+                    let (r, d) = capture_stdout(&scratch, || tokenize_with(&w.dic, &u, mode, None, true));
+                    dumps.extend_from_slice(&d);
+                    if r.is_err() { break 'outer; }
+                }
+            }
+            remove_lines(&outp.stdout, &dumps)
+        } else { outp.stdout.clone() };
+        if to_file && !debug && !outp.stdout.is_empty() {
+            run.fail(idx, "c19:cli:output", "with -o and without -d something was printed on stdout");
+        }
+        if want.as_bytes() != &results[..] {
+            let as_is = expected(&w.dic, &file, wakati, all, mode, split, strip_cur).0;
+            let key = if blank && as_is.as_bytes() == &results[..] { "c19:cli:d14-blank-line" } else { "c19:cli:output" };
+            run.fail(idx, key, &format!("results differ from the library's for file {:?} (flags w={} a={} d={} o={} mode={:?} split={}): got {:?}, expected {:?}",
+                file.chars().take(200).collect::<String>(), wakati, all, debug, to_file, mode, split, String::from_utf8_lossy(&results).chars().take(200).collect::<String>(), want.chars().take(200).collect::<String>()));
+        }
     }
+}
+
+/// `text` with the lines of `dumps` removed, each once, in order (a dump line is matched at its first later occurrence)
+fn remove_lines(text: &[u8], dumps: &[u8]) -> Vec<u8> {
+    let mut want: std::collections::VecDeque<&[u8]> = dumps.split_inclusive(|b| *b == b'\n').collect();
+    let mut out = vec![];
+    for l in text.split_inclusive(|b| *b == b'\n') {
+        if want.front() == Some(&l) { want.pop_front(); } else { out.extend_from_slice(l); }
+    }
+    out
 }
